@@ -7,6 +7,7 @@ from ..predabs import Vocab, PredAbs, A, Not, And, Or, T, translate, known_when,
 from ..rules import common
 
 TITLE = "TCP/TLS sessions deliver sent bytes exactly once and in order"
+TECHNIQUE = 'custom static analysis over clang-14 CFG facts: who-may-call over write primitives, must-pass-through (dominance) with ghost-atom predicate abstraction for pending/armed obligations, must-lockset'
 TE = "iora::network::TcpEngine"
 SESS = TE + "::Session"
 FILE = "iora/network/detail/tcp_engine.hpp"
